@@ -175,11 +175,15 @@ def check(run, M, tier):
                 run.check(T.eq(tot, area), "Z2", "min_trap_grad flat area[%s]" % ctext[:60], f.loc(), "sum(flat top)*dt == area",
                           "min_trap_grad: on the path [%s] sum(flat top)*dt normalises to %s, not to the requested area" % (ctext[:120], T.show(tot, 200)), stmt="Z2:flat:" + ctext[:80])
         run.floor("Z2-" + name, 2, n_area, "area identities of " + name)
+    # ---- Z6 (module-wide part)
+    from ..common import check_no_memoisation
+    check_no_memoisation(run, M, "Z6", ["sigpy.mri.rf.trajgrad"], "a cached waveform array is shared by all callers with equal arguments, so an in-place rescale or sign flip "
+                         "by one caller changes what later calls return")
     # ---- Z6
     for q in ("sigpy.mri.rf.trajgrad.trap_grad", "sigpy.mri.rf.trajgrad.min_trap_grad"):
         f = M.func(q)
-        decs = [unparse(d) for d in f.node.decorator_list]
-        caching = [d for d in decs if "cache" in d.lower() or "memo" in d.lower()]
+        caching = [unparse(d) for d in f.node.decorator_list
+                   if any(w in unparse(d.func if isinstance(d, ast.Call) else d).lower() for w in ("cache", "memo"))]
         run.check(not caching, "Z6", q.split(".")[-1] + " decorators", f.loc(), "no memoising decorator",
                   "%s is decorated with %s: every call with equal arguments returns the *same* array object, so a caller that rescales or sign-flips its waveform in "
                   "place changes what all later calls return (requested area / k-space increment no longer met)" % (q.split(".")[-1], caching), stmt="Z6:" + q)
